@@ -13,7 +13,6 @@ open RenetVerif RenetVerif.RustSem
 /-! ## D. `Packet::to_bytes` over the octets model -/
 section D
 open Src.renet.packet
-abbrev SSerErr := Src.renet.packet.SerializationError
 
 /-- buffer invariant of `OctetsMut` -/
 def OInv (b : OctetsMut) : Prop := b.off ≤ b.buf.length
@@ -573,11 +572,6 @@ end D
 /-! ## E. `Packet::from_bytes` over the octets model -/
 section E
 open Src.renet.packet
-
-def reprSerErr : SerErr → SSerErr
-  | .bufferTooShort => .BufferTooShort | .invalidNumSlices => .InvalidNumSlices
-  | .sliceSizeAboveLimit => .SliceSizeAboveLimit | .emptySlice => .EmptySlice
-  | .invalidAckRange => .InvalidAckRange | .invalidPacketType => .InvalidPacketType
 
 /-- read cursor over `buf` whose unread rest is `rest` -/
 def cur (buf rest : Bytes) : Octets := ⟨toNats buf, buf.length - rest.length⟩
